@@ -13,7 +13,8 @@
 (* against the same operators).                                            *)
 (*                                                                         *)
 (* Clauses: called-count, ran-on-loop-thread, environ-<KEY>,               *)
-(* response-status, response-headers, response-body, close-count,          *)
+(* response-status, response-headers, response-body, response-order,       *)
+(* close-count,                                                            *)
 (* limit-boundary, websocket-not-refused, exception-escaped.               *)
 (*                                                                         *)
 (* Deliberately NOT demanded (the statement is silent): anything about a   *)
@@ -92,6 +93,8 @@ RespChecks(a, r) ==
        \o If(p.total # W!ExpectedTotal(a) \/ ~p.body_eq \/ ~p.final,
              <<F("response-body", ctx)>>)
        \o If(r.exc # "", <<F("exception-escaped", ctx)>>)
+       \* the adapter waits for each send before it makes the next (however long the write takes)
+       \o If(~p.serial, <<F("response-order", ctx)>>)
 
 HttpChecksAll(c, r) ==
     LET rq == c.req
